@@ -17,6 +17,8 @@ CONSTANTS
   DevFetchOutUnchecked = FALSE
   DevFetchLateAuth = FALSE
   DevRateKeyHeader = TRUE
+  DevRefundOnRefusal = FALSE
+  RateBad = FALSE
   DevRawNewlines = FALSE
 INVARIANTS C28_Rate
 VIEW View
